@@ -375,7 +375,25 @@ def rule_7(ctx):
         ctx.expect(ok, anchor, f'arguments bound by signature: {cells[a]}',
                    f'{a} = {cells[a]} evaluates to {got!r}, expected {"an error about the arguments" if w == ("raise",) else repr(w)}: FunctionNode.eval '
                    'binds the written arguments to the signature of the registered function (defaults, order, var-args, delayed parameters)')
-    ctx.floor(15, 'argument binding cells')
+    # one name, several functions: evaluators with namespaces of their own bind a written call to THEIR function's signature,
+    # whichever evaluator (of this model or of an earlier one in the same process) called a function of that name before
+    cells2 = {'A1': 5, 'A2': '3', 'G1': '=ABS(-2)', 'G2': '=ABS(2,3)', 'G3': '=LEFT("abcdef")', 'G4': '=LEFT(2,"5")', 'G5': '=IF(A1>0,1,NOSUCHFUNC(1))', 'G6': '=abs(A2,"2")',
+              'G7': '=_xlfn.ABS(A2,2)'}
+    plain = {'G1': 2, 'G2': ('raise',), 'G3': 'a', 'G5': 1}
+    custom = {'G2': 8, 'G4': 32, 'G1': ('raise',), 'G6': 9, 'G7': 9}      # ABS and LEFT stand for POWER here
+    for order in (('plain', 'custom'), ('custom', 'plain')):
+        wb = W.Workbook(ctx, cells2)
+        wb.evaluator('plain')
+        wb.evaluator_with('custom', {'ABS': 'POWER', 'LEFT': 'POWER'})
+        for key in order + order:
+            for a, w in (plain if key == 'plain' else custom).items():
+                got = wb.value('Sheet1!' + a, key=key)
+                ok = (isinstance(got, tuple) and got[:1] == ('raise',)) if w == ('raise',) else S.same(got, _as_value(w))
+                ctx.expect(ok, anchor, f'{cells2[a]} on the {key} evaluator ({order[0]} evaluator first)',
+                           f'{a} = {cells2[a]} evaluates to {got!r} on the {key} evaluator (in the custom namespace ABS and LEFT are POWER) when the {order[0]} evaluator '
+                           f'goes first; expected {"an error about the arguments" if w == ("raise",) else repr(w)}: a call is bound to the signature of the function '
+                           'the evaluator\'s own namespace holds under that name')
+    ctx.floor(45, 'argument binding cells')
 
 
 def _same(a, b):
